@@ -112,6 +112,15 @@ def clamp (c : Option (Nat × Nat)) (x : Nat) : Option Nat :=
   | some (a, v) => some (if x < a then v else x)
   | none => none
 
+/-- `loadVerifyConfigFile`: the value the limiter is built with — the file's value (`some`), else the
+default, then the clamp -/
+def effective (dflt : Option Nat) (c : Option (Nat × Nat)) (configured : Option Nat) : Option Nat :=
+  match configured with
+  | some x => clamp c x
+  | none => match dflt with
+    | some d => clamp c d
+    | none => none
+
 /-! ## (b) per-user TOTP limiter -/
 
 def sec : Int := 1000000000
@@ -287,6 +296,12 @@ def monStep (m : Mon) (now : Int) (out : Outcome) : Mon × Verdict :=
 what it demands of the implementation does not move with the source; `c14_monitor_spec` shows that
 it is `monStep` on the current tree. -/
 namespace Spec
+
+/-- the floor of the property's anchor: burst ≥ 10, rate ≥ 1/s; above it the *configured* values rule -/
+def minBurst : Nat := 10
+def minRateMilli : Nat := 1000
+def enforcedBurst (configured : Nat) : Nat := max configured minBurst
+def enforcedRateMilli (configured : Nat) : Nat := max configured minRateMilli
 
 def spacingNs : Int := 2 * sec
 def resetNs : Int := 86400 * sec
